@@ -131,6 +131,27 @@ def gen_cases(seed, tier, consts):
         if q and bs == MAXB:
             n = MAXB + 10
         cases.append(("rollmod", "R %d %s" % (bs, vlib.hexs(bytes([byte]) * n))))
+    # (seed C04-4, missed by the full re-run of round 4 once the random stream had moved) windows whose A = 1 + sum of bytes, or whose B,
+    # is EXACTLY 0 modulo 65521 -- the residue a compare-and-subtract reduction gets wrong: 256 x 0xFF + 0xF0 sums to 65520
+    blk = bytes([0xFF]) * 256 + bytes([0xF0])
+    cases.append(("rollmod", "R 257 %s" % vlib.hexs(bytes([7]) + blk + bytes([3, 9]))))
+    cases.append(("rollmod", "R 257 %s" % vlib.hexs(blk + blk + bytes([1]))))
+    cases.append(("rollmod", "R 514 %s" % vlib.hexs(bytes([0]) * 257 + blk + bytes([5]))))
+    # B = sum over i of (n - i) * byte_i + n = 0 (mod 65521): searched for once, small n
+    for nb in (2, 3):
+        found = None
+        for x in range(256):
+            for y in range(256):
+                w = [x, y] if nb == 2 else [x, y, 255]
+                a_ = 1; b_ = 0
+                for v in w:
+                    a_ = (a_ + v) % 65521; b_ = (b_ + a_) % 65521
+                if b_ == 0 or a_ == 0:
+                    found = bytes(w); break
+            if found:
+                break
+        if found:
+            cases.append(("rollmod", "R %d %s" % (nb, vlib.hexs(bytes([1]) + found + bytes([2])))))
     # wire: through the real sy-remote (checksums + apply-delta), compressed and raw
     for _ in range(30 if q else 300):
         bs = r.choice([1, 4, 16, 64, 512])
